@@ -175,6 +175,17 @@ static const char *upenc_pattern(int k)
 	}
 }
 
+/* the handshake functions keep their reply buffer in[4096] on the stack and some of them look at bytes the
+ * reply did not fill: give every case the same stack contents so that such a read does not depend on which
+ * case ran before */
+static void __attribute__((noinline)) scrub_stack(void)
+{
+	volatile unsigned char big[400000];
+	size_t i;
+	for (i = 0; i < sizeof(big); i++)
+		big[i] = 0xa5;
+}
+
 int handle_line(char *l)
 {
 	char *p = l, *save, *hd, *it, step[32];
@@ -208,6 +219,7 @@ int handle_line(char *l)
 	}
 	if (strncmp(l, "H ", 2))
 		return 0;
+	scrub_stack();
 	hd = strtok_r(p + 2, ";", &save);
 	if (!hd || sscanf(hd, "%31s %d %d %d %d %d %d", step, &qtype, &uid, &lazy, &denc, &seed, &arg) != 7)
 		return 0;
